@@ -389,6 +389,26 @@ def next_fn(F):
     return c[0] if c else None
 
 
+def rule_scope_walk(ctx, F):
+    """L2: whether a name is local is decided by the scopes that *contain* it.  The scope list is never popped, so the
+    walk from the innermost scope outwards meets scopes that are already closed; only a scope whose range contains the
+    name may end the walk (by holding the definition, or by not inheriting from its parent).  So the `inherits` flag of
+    a scope is consulted only after both containment tests on that scope succeeded."""
+    from rsrules import text_gate
+    fn = next_fn(F)
+    if fn is None:
+        return
+    reads = sorted({pt for pt, e in fn.points() for x in walk(e) if x.get("k") == "mem" and x.get("f") == "inherits" and "LocalScope" in str(x.get("rec") or "LocalScope")
+                    and not any(y.get("k") == "agg" for y in walk(e))})
+    if not reads:
+        ctx.bad("L2", "next:scope-walk", "TagsIter::next no longer consults a scope's `inherits` flag when resolving local names")
+        return
+    text_gate(ctx, "L2", fn, reads, [
+        ("the scope starts at or before the name", [((".range.start <= ",), True), ((".range).start <= ",), True)]),
+        ("…and ends at or after it", [((".range.end >= ",), True), ((".range).end >= ",), True)]),
+    ], accept_desc="letting a scope's `inherits` flag end the search")
+
+
 def rule_fresh_parse(ctx, F):
     """R1: every document is tagged from its own parse.  A TagsContext keeps one Parser; a run that was cancelled while
     parsing leaves an outstanding parse in it, and the next parse call would *resume* it against the new text.  So on
@@ -418,6 +438,7 @@ def run(ctx):
     rule_fresh_parse(ctx, F)
     rule_ignored(ctx, F)
     rule_cache_one_line(ctx, F)
+    rule_scope_walk(ctx, F)
     return ctx.finish(
         "Value-flow rules over rustc MIR of tree-sitter-tags (TagsIter::next, line_range, utf16_len): which node and which positions each field of a Tag and of the "
         "per-line cache is computed from, the gates on using the cache and on dropping a tag, and the bounds of the line window. "
